@@ -39,7 +39,16 @@ NONFINITE = {"$inf": float("inf"), "$-inf": float("-inf"), "$nan": float("nan")}
 def _unspell(v):
     if isinstance(v, list):
         return [_unspell(x) for x in v]
+    if isinstance(v, str) and v.startswith("$np:"):
+        kind, text = v[4:].split(":", 1)
+        return {"0d": lambda t: numpy.array(float(t) if "." in t else int(t)), "f64": lambda t: numpy.float64(t), "i64": lambda t: numpy.int64(t), "f32": lambda t: numpy.float32(t)}[kind](text)
+    if isinstance(v, str) and v.startswith("$path:"):
+        import pathlib
+        return pathlib.Path(v[6:])
     return NONFINITE.get(v, v) if isinstance(v, str) else v
+
+
+NEAR_NUMBERS = ["$np:0d:2000", "$np:f64:2.5", "$np:i64:7", "$np:f32:0.5", "$np:f64:1e+22"]       # API-only spellings of numbers
 
 
 def gen_echo_program(rng):
@@ -55,10 +64,14 @@ def gen_echo_program(rng):
                 args[k] = rng.choice(STR_POOL)
             elif k == "N":
                 args[k] = rng.choice(NUM_POOL) if rng.random() < 0.92 else rng.choice(sorted(NONFINITE))
+                if rng.random() < 0.06:
+                    args[k] = rng.choice(NEAR_NUMBERS)
             elif k == "B":
                 args[k] = rng.choice([True, False, "true", "False", 0, 1])
             elif k == "P":
                 args[k] = rng.choice(["rel/file.csv", "out dir/x.nc", "/abs/p.csv", "weird \"name\".csv", "back\\slash.csv", "é.csv"])
+                if rng.random() < 0.1:
+                    args[k] = "$path:" + rng.choice(["rel/file.csv", "out dir/x.nc", "/abs/p.csv"])
             elif k == "T":
                 args[k] = rng.choice(["Float", "Integer"])
             elif k == "LN":
@@ -119,6 +132,10 @@ def echo_ast(cmds, rng):
                 val = {"t": "list", "items": [{"t": "ustr", "v": str(x), "cls": "word"} for x in v], "trail": False}
             elif kind == "tuple":
                 val = {"t": "tuple", "pairs": [[{"v": kk, "q": '"'}, {"t": "qstr", "v": vv, "q": '"'}] for kk, vv in v.items()], "trail": False} if v else {"t": "list", "items": [], "trail": False}
+            elif kind == "number" and isinstance(v, str) and v.startswith("$np:"):
+                val = models.number_ast(float(v.split(":")[2]) if ("." in v.split(":")[2] or "e" in v.split(":")[2]) else int(v.split(":")[2]))
+            elif kind == "path" and isinstance(v, str) and v.startswith("$path:"):
+                val = models.value_ast(v[6:], kind, None)
             elif (kind == "number" and isinstance(v, str) and v in NONFINITE) or (kind == "list:number" and any(isinstance(x, str) for x in v)):
                 # in a command file a non-finite number is the bare word the serialiser itself writes
                 word = lambda x: {"t": "ustr", "v": x[1:], "cls": "word"} if isinstance(x, str) else models.number_ast(x)
@@ -150,7 +167,7 @@ def build(case, d):
         cls = prog.find_command_class("Echo")
         for c in case["commands"]:
             args = copy.deepcopy(c["args"])
-            for k in ("N", "LN"):
+            for k in ("N", "LN", "P"):
                 if k in args:
                     args[k] = _unspell(args[k])
             if case["builder"] == "api-objects":
@@ -180,6 +197,10 @@ def canon(v):
     from mpilot.commands import Command
     if isinstance(v, Command):
         return ("ref", v.result_name)
+    if isinstance(v, numpy.ndarray) and v.ndim == 0:
+        v = v.item()                # a 0-d array is the number it holds
+    if isinstance(v, numpy.generic) and not isinstance(v, (bool, numpy.bool_)):
+        v = v.item()                # NumPy scalars: the same number
     if isinstance(v, bool):
         return ("bool", v)
     if isinstance(v, float):
@@ -367,8 +388,18 @@ def run_case(ctx, case):
         from click.testing import CliRunner
         from mpilot.cli.mpilot import main
         fp = os.path.join(d, "saved_for_cli.mpt")
+        linked = case["rseed"] % 6 == 0
         try:
-            P.to_file(fp)
+            if linked:
+                # the command file is kept elsewhere and reached through a symbolic link placed next to the data: relative
+                # paths are relative to where the user finds the command file
+                os.makedirs(os.path.join(d, "store"), exist_ok=True)
+                P.to_file(os.path.join(d, "store", "model_v7.mpt"))
+                if os.path.lexists(fp):
+                    os.remove(fp)
+                os.symlink(os.path.join(d, "store", "model_v7.mpt"), fp)
+            else:
+                P.to_file(fp)
             try:
                 res = CliRunner(mix_stderr=False).invoke(main, ["eems-csv", fp])
             except TypeError:
@@ -379,7 +410,7 @@ def run_case(ctx, case):
                     err_text = res.stderr
                 except Exception:
                     err_text = res.output
-                ctx.fail("%s:saved-file-fails-in-command-line-tool" % builder, {"exit": res.exit_code, "exception": repr(res.exception)[:200], "stderr": err_text[-400:], "text": text[:600]})
+                ctx.fail("%s:saved-file-fails-in-command-line-tool%s" % (builder, ":reached-through-a-symbolic-link" if linked else ""), {"exit": res.exit_code, "exception": repr(res.exception)[:200], "stderr": err_text[-400:], "text": text[:600]})
                 return
         except UnicodeError:
             ctx.dontcare("non-UTF-8 locale")
